@@ -42,6 +42,24 @@ pub fn replay(cases: &str, verdicts: &str) {
             if err > *e { *e = err; }
             v.check(err <= 2f64.powi(-bits), &format!("fit {}", hist), &class, &c, json!({"got": g.as_ref().map(|g| fjs(g)), "rel_err": fj(err)}));
         }
+        // the same buffers reused: an earlier fit on other abscissae held in the very same vectors, then overwritten IN PLACE (a sliding
+        // window, a refilled buffer): the fit is a function of the values, not of where they are stored
+        {
+            let g = guard(|| {
+                let mut pr = PolynomialRegressor::new(d);
+                let mut bx: Vec<f64> = x.iter().map(|t| 0.5 * t + 1.0).collect();
+                let mut by: Vec<f64> = y.iter().rev().map(|t| t + 1.0).collect();
+                pr.fit(&bx, &by);
+                for (i, t) in x.iter().enumerate() { bx[i] = *t; }
+                for (i, t) in y.iter().enumerate() { by[i] = *t; }
+                pr.fit(&bx, &by);
+                let first = pr.coef.clone();
+                pr.fit(&bx, &by);
+                (first, pr.coef.clone())
+            });
+            let err = g.as_ref().map(|(g, g2)| if g.len() != coef.len() { f64::INFINITY } else { g.iter().zip(&coef).chain(g2.iter().zip(&coef)).map(|(a, b)| (a - b).abs()).fold(0.0, f64::max) / scale }).unwrap_or(f64::INFINITY);
+            v.check(err <= 2f64.powi(-bits), "fit after-other-data-in-the-same-buffers", &class, &c, json!({"got": g.as_ref().map(|g| fjs(&g.0)), "rel_err": fj(err)}));
+        }
         // the abscissae in other units (x s with s = 2^-30 and 2^12): the coefficient of x^k is c_k / s^k.  Powers of two rescale the
         // normal equations exactly, so the same accuracy is demanded coefficient by coefficient - no absolute threshold may enter
         if v.cases % 3 == 0 {
@@ -55,7 +73,7 @@ pub fn replay(cases: &str, verdicts: &str) {
             }
         }
         // prediction evaluates c0 + c1 x + ... at each point (coefficient order!)
-        let pr = PolynomialRegressor { coef: coef.clone() };
+        let pr = { let mut q = PolynomialRegressor::new(coef.len().max(1) - 1); q.coef = coef.clone(); q };
         let pts: Vec<f64> = x.iter().map(|t| t + 0.25).chain(x.iter().cloned()).collect();
         let e: Vec<f64> = pts.iter().map(|t| horner(&coef, *t)).collect();
         let g = guard(|| pr.predict(&pts));
